@@ -161,6 +161,7 @@ type RunResult struct {
 	Stats      *TaskStats       `json:"-"`
 	Switches   [4]int64         `json:"-"` // total, shared, dep, callback
 	Deadlock   bool             `json:"-"`
+	Aborted    bool             `json:"-"`
 	Crash      string           `json:"-"`
 	Races      int              `json:"-"`
 	Digest     uint64           `json:"-"`
@@ -238,6 +239,7 @@ func shapeOf(s *Script) uint64 {
 func runTasksSim(fns []func(), ch vsimrt.Chooser, res *RunResult) *vsimrt.Sched {
 	sch := vsimrt.NewSched(ch)
 	sch.MaxSegs = 4_000_000
+	sch.MaxTotalSteps = 400_000_000
 	sch.Run(fns)
 	for _, ep := range sch.Escaped {
 		if ep.Root {
@@ -255,6 +257,9 @@ func runTasksSim(fns []func(), ch vsimrt.Chooser, res *RunResult) *vsimrt.Sched 
 		res.Switches[3] += sch.SwitchesCb
 		if sch.Deadlock {
 			res.Deadlock = true
+		}
+		if sch.Aborted {
+			res.Aborted = true
 		}
 	}
 	return sch
@@ -371,7 +376,11 @@ func execC18(s *Script, ch vsimrt.Chooser) *RunResult {
 	}
 	_ = soloViol // the same monitors fire in the concurrent phase; solo ones would be duplicates
 	soloCrash := soloRes.Crash
-	if res.Crash != "" || soloCrash != "" {
+	if res.Aborted || soloRes.Aborted {
+		// a goroutine of the code under test ran on beyond the cap on the
+		// run's total steps: nothing is concluded from this run
+		res.Stats.Judged["inconclusive: run aborted at the total-step cap"]++
+	} else if res.Crash != "" || soloCrash != "" {
 		if (res.Crash != "") != (soloCrash != "") {
 			res.addViol(Violation{Class: "concurrent-outcome", Symptom: "crash-differs", Detail: "an internal goroutine of the library panicked in one phase only; solo: '" + soloCrash + "' concurrent: '" + res.Crash + "'"})
 		}
@@ -495,6 +504,9 @@ func execC17(s *Script, ch vsimrt.Chooser) *RunResult {
 				body()
 			}
 		}}, seqChooser{}, &local)
+		if local.Aborted {
+			return nil // inconclusive
+		}
 		if local.Crash != "" {
 			return crashOf(&local)
 		}
@@ -503,6 +515,10 @@ func execC17(s *Script, ch vsimrt.Chooser) *RunResult {
 	}
 	ref := runAlone(nil)
 	compare := func(variant string, got []Outcome) {
+		if got == nil || ref == nil {
+			res.Stats.Fired["inconclusive: run aborted at the total-step cap"]++
+			return
+		}
 		res.Stats.Fired[variant]++
 		if len(got) != len(ref) {
 			k := subject[0].K
@@ -555,6 +571,9 @@ func execC17(s *Script, ch vsimrt.Chooser) *RunResult {
 					res.addViol(c.viol...)
 				}
 			}}, seqChooser{}, &local)
+			if local.Aborted {
+				return nil
+			}
 			if local.Crash != "" {
 				return crashOf(&local)
 			}
@@ -581,7 +600,7 @@ func execC17(s *Script, ch vsimrt.Chooser) *RunResult {
 			outs = c.runScript(subject)
 			viol = c.viol
 		}}, &rngChooser{r: rand.New(rand.NewPCG(s.PoolSeed, 5)), strategy: "uniform", meanSeg: 1 + int64(s.PoolSeed%200), targetSw: 100}, &local2)
-		if len(sch.TaskSteps()) > 1 {
+		if len(sch.TaskSteps()) > 1 && !local2.Aborted {
 			if local2.Crash != "" {
 				outs = crashOf(&local2)
 			} else {
@@ -606,7 +625,9 @@ func execC17(s *Script, ch vsimrt.Chooser) *RunResult {
 		for _, c := range ctxs {
 			res.Stats.merge(c.st)
 		}
-		if res.Crash != "" {
+		if res.Aborted {
+			compare("interleaved", nil)
+		} else if res.Crash != "" {
 			compare("interleaved", crashOf(res))
 		} else if !res.Deadlock {
 			compare("interleaved", conc[0])
